@@ -195,7 +195,7 @@ func Child(c *run.Ctx, name string) {
 			start += int64(1+r.Intn(47)) * 1e9 // a window that does not start on a multiple of the range
 		}
 		end := start + int64([]int{20, 60, 600, 3600}[r.Intn(4)])*1e9
-		o := logq.GenOpts{JSONLines: r.Intn(2) == 0, MaxSeries: 5, MaxSamples: 30, StartNs: start, EndNs: end, Numeric: true}
+		o := logq.GenOpts{JSONLines: r.Intn(2) == 0, MaxSeries: 5, MaxSamples: 30, StartNs: start, EndNs: end, Numeric: true, NegN: gi%5 == 3}
 		if !o.JSONLines {
 			o.Logfmt = r.Intn(2) == 0
 		}
